@@ -48,8 +48,9 @@ def glue_events(rng, kernel_name="hmc", model_kind="liesel", block=("b", "sigma_
         interface = gs.LieselInterface(user)
         state = user.state
 
-        def direct(vals):       # direct assignment on a copy of the user's model
+        def direct(vals):       # direct assignment on a copy of the user's model holding the current state
             m = copy.deepcopy(user)
+            m.state = state
             m.auto_update = False
             for k, v in vals.items():
                 m.vars[k].value = v
@@ -124,6 +125,11 @@ def glue_events(rng, kernel_name="hmc", model_kind="liesel", block=("b", "sigma_
                 e["kstate_before"] = ks_before
                 e["kstate_after"] = [fstr(np.float32(out.kernel_state.step_size))] + _fl(out.kernel_state.inverse_mass_matrix)
                 state, ks = new_state, out.kernel_state
+                # another kernel of the sequence moves a parameter outside the block before the next transition
+                if others:
+                    k = rng.choice(others)
+                    cur_o = interface.extract_position([k], state)[k]
+                    state = interface.update_state({k: jnp.asarray(np.asarray(cur_o) + np.float32(rng.uniform(0.2, 0.6)))}, state)
             except Exception as ex:  # noqa: BLE001
                 import traceback
                 e["crash"] = f"{type(ex).__name__}: {ex}"[:200] + traceback.format_exc()[-300:]
